@@ -42,6 +42,7 @@ def worker_main(k, args, runs, entry, beat=None):
     from . import checks_registry as R
     R.worker_init(args.check)
     t_end = args.t0 + args.budget
+    n_done = 0
     with open(path, "a") as f:
         for run in runs:
             if time.time() > t_end:
@@ -49,10 +50,13 @@ def worker_main(k, args, runs, entry, beat=None):
             f.write(dumps(dict(START=run)) + "\n")
             f.flush()
             t = time.time()
+            # the first runs of a worker pay for JIT compilation: give them a longer cap
+            cap = args.run_cap * (4 if n_done < 3 and args.engine != "twin" else 1)
+            n_done += 1
             if beat is not None:
-                beat[2 * k], beat[2 * k + 1] = float(run), t
+                beat[2 * k], beat[2 * k + 1] = float(run), t + (cap - args.run_cap)
             try:
-                signal.alarm(int(args.run_cap))
+                signal.alarm(int(cap))
                 plan, rec = execute_one(args.check, args.seed, run, args.engine, args.tier, entry)
                 signal.alarm(0)
                 rec["run"] = run
